@@ -13,6 +13,7 @@ from corankco.algorithms.pickaperm.pickaperm import PickAPerm
 
 
 class Share(Suite):
+    seasoned_rate = 0.12     # share of the cases run on algorithm objects that have served before (algos.seasoned)
     names_rate, past_rate = 0.08, 0.08
     """the statement itself, on penalties of a fine dyadic grid (tie penalty 0.5 + 2^-17 ...): local optima reached from different
     departures then have scores ~1e-5 apart - closer than the tolerance of a careless float comparison. Judged without the model
@@ -51,6 +52,8 @@ class Share(Suite):
             starts = [CopelandMethod(), PickAPerm(), BordaCount()]
             alg = BioConsert(starting_algorithms=starts)
             deps = [lst(a.compute_consensus_rankings(ds, sc, True).consensus_rankings[0]) for a in starts]
+        if case.get("seasoned"):
+            seasoned(alg, case["D"], case["s"])
         cons = alg.compute_consensus_rankings(ds, sc, case["one"])
         out["deps"] = deps
         out["cons"] = [lst(r) for r in cons.consensus_rankings]
